@@ -106,6 +106,11 @@ fn candidates(w: &World, p: &Plan) -> Vec<(World, Plan)> {
         c.args.list = false;
         out.push((c, p.clone()));
     }
+    if w.args.dashdash {
+        let mut c = w.clone();
+        c.args.dashdash = false;
+        out.push((c, p.clone()));
+    }
     if w.args.long_flags || w.args.flags_last {
         let mut c = w.clone();
         c.args.long_flags = false;
@@ -157,6 +162,18 @@ fn candidates(w: &World, p: &Plan) -> Vec<(World, Plan)> {
                 c.files[i].diff = FileDiff::Insert { line: *line, renamed_from: renamed_from.clone(), edit: LineEdit::Inserted };
                 out.push((c, p.clone()));
             }
+        }
+    }
+    if !w.diff_noise.is_empty() {
+        let mut c = w.clone();
+        c.diff_noise.clear();
+        out.push((c, p.clone()));
+    }
+    for i in 0..w.files.len() {
+        if w.files[i].no_final_newline {
+            let mut c = w.clone();
+            c.files[i].no_final_newline = false;
+            out.push((c, p.clone()));
         }
     }
     if w.diff_context != 0 {
